@@ -13,7 +13,7 @@ for d in sorted(glob.glob('/verif/seeded/*')):
             mm = re.match(r'label=(\S+)', l)
             if mm and mm.group(1) not in labels:
                 labels.append(mm.group(1))
-    caught = 'yes' if r.get('caught') else 'NO'
+    caught = 'yes' if r.get('caught') else ('superseded by a fix' if m.get('superseded') else 'NO')
     rows.append((os.path.basename(d), m.get('summary', '')[:140].replace('|', '/'), m.get('needs', '')[:110].replace('|', '/'), caught + (' (' + r.get('tier', 'quick') + ')' if r.get('caught') else ''), ', '.join(labels[:2])))
 print('| seeded change | what it changes | what it needs | caught | first failing labels |')
 print('|---|---|---|---|---|')
